@@ -13,6 +13,15 @@ P = {
   text="Lean theorems (Props/C01.lean): whenever the model of verifier.Verify / VerifyBlob accepts under a non-skip statement, the envelope parsed, its signature verified, the payload is a Notary payload whose decoded target equals the artifact (digest, size; media type for OCI and for blobs when stated), every required metadata pair is in the signed annotations, and the reported payload / returned descriptor is the signed one; integrity_not_overridable: a tampered envelope is rejected for EVERY scenario and enforcement map of the C02 model of processSignature (levels, overrides, stores, plugins); mismatch survives satisfied metadata. Correspondence: freshly signed, other-artifact, re-assembled and byte-mutated JWS/COSE envelopes x customised levels x metadata maps through the real verifier.Verify and notation.VerifyBlob.",
   note="notation-core-go ParseEnvelope/Verify() IS the definition of 'cryptographically valid under the leaf key' here; the envelope facts (parses, integrity, payload type, json decoding of the payload) are computed by the harness calling notation-core-go / encoding/json directly (independent route, trusted).",
   tech="Lean 4 proof (decision logic, composition with the C02 model) + model/implementation correspondence"),
+ "C07": dict(
+  text="Lean theorems (Props/C07.lean), for every Crypto structure satisfying verify(pub k, m, sign k m), every key and signing clock: sign_then_verify_ok (the signing model composed with the verify model accepts for legal arguments), illegal_is_refused, payload_is_sanitised_desc, expiry_exact (with the whole-seconds guard as part of the statement and a theorem showing why), blob_hash_consistent for all six key specs and all four signer paths from the regenerated algorithm tables, blob_returns_verified_descriptor, metadata_read_back, codec round trips. Correspondence: real notation.SignBlob / SignOCI output fed to real notation.VerifyBlob / Verify: 6 key specs x JWS/COSE x local / file / raw-plugin / envelope-plugin signers x descriptors, blobs up to 4 MiB, metadata maps, durations.",
+  note="Cryptography is a hypothesis structure (instantiated by a toy scheme for non-vacuity); notation-core-go's envelope codec and the honesty of the scripted in-process plugins are trusted; verification happens within a bounded delay of signing (clock alignment + retry).",
+  tech="Lean 4 proof (composition sign;verify over an abstract crypto law, table facts by decide) + regenerated algorithm tables + round-trip correspondence"),
+ "C11": dict(
+  text="Lean theorems (Props/C11.lean) over a small heap model where maps are addresses (so 'writes into the repository's map' is expressible): signs_resolved_plus_metadata, refusals (reserved prefix, collision, digest mismatch: error, no signer call, no push), frame / frame_heap (every heap cell that existed before a call is unchanged; proved from the extracted fact that the metadata merge allocates a fresh map), idempotent_history and history independence by induction over call lists of any length, pushed_annotations_exact, merge_order_irrelevant. Correspondence: notation.SignOCI (and the deprecated Sign) sequences against a mock repository returning aliased maps, oras memory and on-disk OCI layouts (index.json / blobs / referrers snapshots, re-opened from disk), deep-copy comparison of every argument object.",
+  note="SHA-256 thumbprints are harness-computed hex strings; oras-go and notation-core-go are trusted. Refusals are observed structurally (error, signer not called, nothing pushed), not by message. Five notes on the real code outside the property are in corpus/C11/README.md.",
+  tech="Lean 4 proof (heap/alias model, frame and history induction) + regenerated allocation/data-flow facts + correspondence on mock and real OCI layouts"),
+
  "C08": dict(
   text="Lean theorems (Props/C08.lean): for documents with unique scopes the selected statement is THE statement listing exactly the repository path, else THE wildcard statement, else the typed no-applicable-policy error; invariance under List.Perm of the statements; exact string matching only; blob by exact name / single global; copy_is_private over any sequence of mutations through handed-out copies, under CloneFresh obligations on the extracted clone fields. Correspondence: valid documents in all permutations x near-miss scopes x references through GetApplicableTrustPolicy, Verify/SkipVerify/VerifyBlob, with reflection-based mutation of handed-out copies.",
   note="Validity of documents is a decidable hypothesis (WF) satisfied by construction (the harness runs the real Validate()); C09 proves it follows from validation. The extractor classifies clone fields syntactically.",
